@@ -331,7 +331,9 @@ func c15Put(c *core.Ctx, pkg *packages.Package) {
 			}
 			return "putData,each{,putNew,delOld,}→nil"
 		}})
-	// what is written where
+	// what is written where (names by role: receiver, transaction parameter, object parameter)
+	rv := an.RecvVarName(fn.Decl)
+	txP, oP := an.ParamName(fn.Decl.Type, 0), an.ParamName(fn.Decl.Type, 1)
 	for _, p := range paths {
 		inLoop := false
 		for _, e := range p.Events {
@@ -341,11 +343,11 @@ func c15Put(c *core.Ctx, pkg *packages.Package) {
 			case e.Kind == "endloop":
 				inLoop = false
 			case e.Name == "Put" && !inLoop:
-				c.Check(len(e.Args) == 2 && strings.HasSuffix(e.Args[0], ".dataKey(o.ObjectID())") && strings.Contains(e.Args[1], ".MarshalBinary().0"), "C15.put", "putTx#data", e.Pos, "the data Put must store o.MarshalBinary() under dataKey(o.ObjectID()); stores %v", e.Args)
+				c.Check(len(e.Args) == 2 && strings.HasSuffix(e.Args[0], ".dataKey("+oP+".ObjectID())") && strings.Contains(e.Args[1], ".MarshalBinary().0"), "C15.put", "putTx#data", e.Pos, "the data Put must store o.MarshalBinary() under dataKey(o.ObjectID()); stores %v", e.Args)
 			case e.Name == "Put" && inLoop:
-				c.Check(len(e.Args) == 2 && strings.Contains(e.Args[0], ".indexKey(") && strings.Contains(e.Args[0], ".ValueOf(o)") && e.Args[1] == "[]byte(o.ObjectID())", "C15.put", "putTx#index-new", e.Pos, "the index Put must store the object id under indexKey(idx.Name, idx.ValueOf(o)); stores %v", e.Args)
+				c.Check(len(e.Args) == 2 && strings.Contains(e.Args[0], ".indexKey(") && strings.Contains(e.Args[0], ".ValueOf("+oP+")") && e.Args[1] == "[]byte("+oP+".ObjectID())", "C15.put", "putTx#index-new", e.Pos, "the index Put must store the object id under indexKey(idx.Name, idx.ValueOf(o)); stores %v", e.Args)
 			case e.Name == "Delete" && inLoop:
-				c.Check(len(e.Args) == 1 && strings.Contains(e.Args[0], ".indexKey(") && strings.Contains(e.Args[0], ".ValueOf("+"s.GetTx(tx, o.ObjectID()).0"+")"), "C15.put", "putTx#index-old", e.Pos, "the index Delete must remove indexKey(idx.Name, idx.ValueOf(old)); removes %v", e.Args)
+				c.Check(len(e.Args) == 1 && strings.Contains(e.Args[0], ".indexKey(") && strings.Contains(e.Args[0], ".ValueOf("+rv+".GetTx("+txP+", "+oP+".ObjectID()).0"+")"), "C15.put", "putTx#index-old", e.Pos, "the index Delete must remove indexKey(idx.Name, idx.ValueOf(old)); removes %v", e.Args)
 			}
 		}
 	}
@@ -358,9 +360,23 @@ func c15Loops(c *core.Ctx, pkg *packages.Package) {
 			continue
 		}
 		n := 0
+		over := m.over
+		if over == "entries" {
+			// the variable holding the listed entries: first result of the tx.List call
+			ast.Inspect(fn.Decl.Body, func(nd ast.Node) bool {
+				if as, ok := nd.(*ast.AssignStmt); ok && len(as.Lhs) == 2 && len(as.Rhs) == 1 {
+					if call, ok := as.Rhs[0].(*ast.CallExpr); ok {
+						if sel, ok := call.Fun.(*ast.SelectorExpr); ok && sel.Sel.Name == "List" {
+							over = types.ExprString(as.Lhs[0])
+						}
+					}
+				}
+				return true
+			})
+		}
 		ast.Inspect(fn.Decl.Body, func(nd ast.Node) bool {
 			rs, ok := nd.(*ast.RangeStmt)
-			if !ok || !strings.HasSuffix(types.ExprString(rs.X), m.over) {
+			if !ok || !strings.HasSuffix(types.ExprString(rs.X), over) {
 				return true
 			}
 			n++
